@@ -452,7 +452,9 @@ std::string Run::compose_name(int token, int name_sel, int kind) {
   if (base[0] == '!') return base.substr(1);   // literal name (no token), e.g. "localhost" or an IP literal
   if (cfg.knob("token_style") == 2) {
     // token inside the first label (keeps the number of dots of the base name): first-tNN.rest
-    size_t dot = base.find('.');
+    size_t dot = 0;   // first label separator (an escaped dot is part of the label)
+    while (dot < base.size() && base[dot] != '.') dot += (base[dot] == '\\' && dot + 1 < base.size()) ? 2 : 1;
+    if (dot >= base.size()) dot = std::string::npos;
     std::string first = dot == std::string::npos ? base : base.substr(0, dot);
     return first + "-t" + std::to_string(token) + (dot == std::string::npos ? "" : base.substr(dot));
   }
